@@ -91,3 +91,39 @@ proof fn lits()
     assert(crate::constants::ERROR_STATUS@.len() == 5);
     assert(crate::constants::TRANSITIONING_STATUS@.len() == 13);
 }
+
+// ---- ServiceState (notification throttling) -----------------------------------------
+// Specification from the statement: "repeated identical state notifications are emitted on change and
+// then at most once per 120 repetitions".  emit(old entry, value, max) and the new entry:
+pub open spec fn emit_spec(m: Map<String, (String, u32)>, k: String, v: Seq<char>, max: u32) -> bool {
+    !m.contains_key(k) || m[k].0@ != v || m[k].1 >= max
+}
+pub open spec fn next_count(m: Map<String, (String, u32)>, k: String, v: Seq<char>, max: u32) -> int {
+    if emit_spec(m, k, v, max) { 1 } else { m[k].1 + 1 }
+}
+
+// History lemma for the throttle. Abstract one entry (same key, same value notified again and again):
+// by emit_spec/next_count a repeated identical notification emits iff count >= max and the count becomes
+// 1 on emission, count+1 otherwise. rep_count(c, max, n) is the count after n repetitions.
+pub open spec fn rep_count(c: int, max: int, n: nat) -> int decreases n {
+    if n == 0 { c } else { let p = rep_count(c, max, (n - 1) as nat); if p >= max { 1 } else { p + 1 } }
+}
+pub open spec fn rep_emit(c: int, max: int, n: nat) -> bool {   // does the n-th repetition (1-based) emit?
+    n > 0 && rep_count(c, max, (n - 1) as nat) >= max
+}
+// the abstraction is the one the code implements (same key present, same value):
+pub proof fn lemma_rep_matches_spec(m: Map<String, (String, u32)>, k: String, max: u32)
+    requires m.contains_key(k),
+    ensures emit_spec(m, k, m[k].0@, max) == (m[k].1 >= max),
+            next_count(m, k, m[k].0@, max) == (if m[k].1 >= max { 1int } else { m[k].1 + 1 }),
+{}
+// after an emission (count == 1) the next max-1 identical notifications are silent: at most one emission
+// per `max` repetitions (max == 120 at the call site, see write_state_event).
+pub proof fn lemma_throttle(max: int, n: nat)
+    requires max >= 1, n < max,
+    ensures rep_count(1, max, n) == n + 1,
+            n >= 1 ==> !rep_emit(1, max, n),    // @C20.lemma.at_most_once_per_max_repetitions
+    decreases n
+{
+    if n > 0 { lemma_throttle(max, (n - 1) as nat); }
+}
